@@ -115,6 +115,10 @@ type Mutant struct {
 	// File/Old/New edit: the breakage is made in the refactored shape of the
 	// code, to show that a rule which follows the refactoring still sees it.
 	Base string `json:"base,omitempty"`
+	// Config, when set, is the build configuration (GOOS/GOARCH) under which
+	// the rule is run on the variant and on the baseline: a breakage that only
+	// exists where int has 32 bits is only visible there.
+	Config string `json:"config,omitempty"`
 }
 
 type controlResult struct {
@@ -223,13 +227,21 @@ var (
 	baselineErr   = map[string]error{}
 )
 
-func baselineFailures(repo, rule string) (map[string]bool, error) {
+func baselineFailures(repo, rule string, cfg ...string) (map[string]bool, error) {
 	baselineMu.Lock()
 	defer baselineMu.Unlock()
-	if b, ok := baselineCache[rule]; ok {
-		return b, baselineErr[rule]
+	c := ""
+	if len(cfg) > 0 {
+		c = cfg[0]
 	}
-	base, err := runSub(repo, []string{rule}, "")
+	ruleKey := rule
+	if c != "" {
+		ruleKey = rule + "@" + c
+	}
+	if b, ok := baselineCache[ruleKey]; ok {
+		return b, baselineErr[ruleKey]
+	}
+	base, err := runSub(repo, []string{rule}, c)
 	out := map[string]bool{}
 	if err == nil && base.LoadError != "" {
 		err = fmt.Errorf("%s", base.LoadError)
@@ -241,7 +253,7 @@ func baselineFailures(repo, rule string) (map[string]bool, error) {
 			}
 		}
 	}
-	baselineCache[rule], baselineErr[rule] = out, err
+	baselineCache[ruleKey], baselineErr[ruleKey] = out, err
 	return out, err
 }
 
@@ -268,7 +280,7 @@ func runControl(m Mutant, repo, verif string) controlResult {
 		return res
 	}
 	// baseline failures of this rule on the unmodified tree (computed once per rule)
-	baseFail, err := baselineFailures(repo, m.Rule)
+	baseFail, err := baselineFailures(repo, m.Rule, m.Config)
 	if err != nil {
 		res.Status = "did-not-fire"
 		res.Detail = fmt.Sprintf("baseline run failed: %v", err)
@@ -303,7 +315,7 @@ func runControl(m Mutant, repo, verif string) controlResult {
 		res.Detail = lastLines(string(out), 3)
 		return res
 	}
-	got, err := runSub(dir, []string{m.Rule}, "")
+	got, err := runSub(dir, []string{m.Rule}, m.Config)
 	if err != nil || got.LoadError != "" {
 		res.Status = "did-not-fire"
 		res.Detail = fmt.Sprintf("run on variant failed: %v %s", err, got.LoadError)
@@ -329,7 +341,7 @@ func runBasedControl(m Mutant, repo, verif string) controlResult {
 		res.Status, res.Detail = "did-not-fire", "base patch missing: "+m.Base
 		return res
 	}
-	baseFail, err := baselineFailures(repo, m.Rule)
+	baseFail, err := baselineFailures(repo, m.Rule, m.Config)
 	if err != nil {
 		res.Status, res.Detail = "did-not-fire", fmt.Sprintf("baseline run failed: %v", err)
 		return res
@@ -369,7 +381,7 @@ func runBasedControl(m Mutant, repo, verif string) controlResult {
 		res.Status, res.Detail = "does-not-build", lastLines(string(out), 3)
 		return res
 	}
-	got, err := runSub(dir, []string{m.Rule}, "")
+	got, err := runSub(dir, []string{m.Rule}, m.Config)
 	if err != nil || got.LoadError != "" {
 		res.Status, res.Detail = "did-not-fire", fmt.Sprintf("run on variant failed: %v %s", err, got.LoadError)
 		return res
@@ -398,7 +410,7 @@ func runPatchControl(m Mutant, repo, verif string) controlResult {
 		res.Status, res.Detail = "did-not-fire", "patch file missing: "+m.Patch
 		return res
 	}
-	baseFail, err := baselineFailures(repo, m.Rule)
+	baseFail, err := baselineFailures(repo, m.Rule, m.Config)
 	if err != nil {
 		res.Status, res.Detail = "did-not-fire", fmt.Sprintf("baseline run failed: %v", err)
 		return res
@@ -428,7 +440,7 @@ func runPatchControl(m Mutant, repo, verif string) controlResult {
 		res.Status, res.Detail = "does-not-build", lastLines(string(out), 3)
 		return res
 	}
-	got, err := runSub(dir, []string{m.Rule}, "")
+	got, err := runSub(dir, []string{m.Rule}, m.Config)
 	if err != nil || got.LoadError != "" {
 		res.Status, res.Detail = "did-not-fire", fmt.Sprintf("run on variant failed: %v %s", err, got.LoadError)
 		return res
